@@ -35,7 +35,7 @@ not_applicable = [
 hook_commits = [l.strip() for l in open(os.path.join(ROOT, 'tools', 'hook_commits.txt')) if l.strip()]
 manifest = {
     "version": 1,
-    "setup_cmd": "cd /verif/harness && RUSTUP_TOOLCHAIN=1.88.0 CARGO_NET_OFFLINE=true cargo build --release --offline && (CARGO_NET_OFFLINE=true cargo +nightly fuzz build --fuzz-dir /verif/fuzz >/dev/null 2>&1 || echo 'note: libFuzzer targets not built (only the thorough tier of C08/C09 uses them; it records their absence)')",
+    "setup_cmd": "cd /verif/harness && RUSTUP_TOOLCHAIN=1.88.0 CARGO_NET_OFFLINE=true cargo build --release --offline && ((for t in wire_decode wire_roundtrip hostile_process; do CARGO_NET_OFFLINE=true cargo +nightly fuzz build --fuzz-dir /verif/fuzz $t || exit 1; done; CARGO_NET_OFFLINE=true cargo +nightly fuzz build -s none --fuzz-dir /verif/fuzz --target-dir /verif/target/fuzz-gen generated) >/dev/null 2>&1 || echo 'note: libFuzzer targets not built (only the coverage-guided campaigns of the thorough tiers use them; their absence is recorded in the evidence)')",
     "hooks": {
         "guard": "cargo feature `verif` of crate chitchat (off by default)",
         "enable": "the harness crate /verif/harness depends on chitchat by path with features = [\"verif\"]; ./check rebuilds it from /repo's working tree on every run",
